@@ -18,6 +18,9 @@ type MsgT struct{ B []byte }
 
 func (m MsgT) Size() int { return len(m.B) + 1 }
 func (m MsgT) Marshal(b []byte) error {
+	if len(b) != m.Size() { // the buffer is the window of this message, sized by Size
+		return fmt.Errorf("MsgT: Marshal given %d bytes for a message of %d", len(b), m.Size())
+	}
 	b[0] = 0x7a
 	copy(b[1:], m.B)
 	return nil
